@@ -1440,7 +1440,7 @@ func ruleDoApproveVerb(p *Prog, r *Report) {
 
 // ruleHAFailClosed: R06.8.
 func ruleHAFailClosed(p *Prog, r *Report) {
-	r.rule("R06.8", "The PAN-OS HA-state check fails closed: in the bool-valued function that the login closure tests (checkHA), `return true` never lies on the non-nil edge of an error test, and every `return true` is control dependent on a condition computed from the decoded reply of the device (enabled flag / local state), never reached unconditionally.")
+	r.rule("R06.8", "The PAN-OS HA-state check fails closed: in the bool-valued function that the login closure tests (checkHA), `return true` never lies on the non-nil edge of an error test, and every `return true` is control dependent on a condition computed from the decoded reply of the device (enabled flag / local state), never reached unconditionally; a verdict computed from the local state is an equality comparison with \"active\" or \"active-primary\" (exact match against the enumerated accepting states, no prefix or substring test).")
 	fn := p.Fn("(*panos.State).checkHA")
 	if fn == nil {
 		r.fail("R06.8", "anchor|checkHA", "", "not found", "")
@@ -1465,13 +1465,50 @@ func ruleHAFailClosed(p *Prog, r *Report) {
 			vals = []bool{bv}
 		}
 		if !isC {
-			// `return ha.State == "active"`: a comparison of decoded data: fine
-			if t[ret.Results[0]] {
-				n++
-				r.ok("R06.8", "ha-verdict-from-reply", p.ipos(ret), "verdict is a comparison of the decoded HA state")
-			} else {
+			// `return ha.State == "active"`: an exact comparison of decoded data
+			// with one of the two states in which a firewall handles traffic and
+			// configuration (PAN-OS HA states: initial, passive, active,
+			// active-primary, active-secondary, tentative, non-functional, suspended).
+			n++
+			if !t[ret.Results[0]] {
 				r.fail("R06.8", "ha-verdict-from-reply", p.ipos(ret), "verdict does not derive from the device's reply", "")
+				continue
 			}
+			exact := true
+			why := ""
+			for _, rt := range valueRoots(ret.Results[0]) {
+				bo, isB := rt.(*ssa.BinOp)
+				if !isB || bo.Op != token.EQL {
+					exact, why = false, "the accept decision is "+descValue(rt, 0)+", not an equality with an enumerated state"
+					continue
+				}
+				k, isK := constString(bo.Y)
+				if !isK {
+					k, isK = constString(bo.X)
+				}
+				if !isK || (k != "active" && k != "active-primary") {
+					exact, why = false, "the state is compared with "+descValue(bo.Y, 0)
+					continue
+				}
+				// pairing with the HA mode under which this return is reached
+				for _, e := range controllingEdges(ret.Block()) {
+					c, neg := stripNot(ifOf(e.b).Cond)
+					mb, isB := c.(*ssa.BinOp)
+					if !isB || mb.Op != token.EQL || neg || e.k != 0 {
+						continue
+					}
+					mode, isM := constString(mb.Y)
+					if !isM {
+						continue
+					}
+					want := map[string]string{"Active-Passive": "active", "Active-Active": "active-primary"}[mode]
+					if want != "" && want != k {
+						exact, why = false, "in mode "+mode+" the accepted state is \""+k+"\" instead of \""+want+"\""
+					}
+				}
+			}
+			r.add("R06.8", "ha-verdict-from-reply", p.ipos(ret), "verdict is an exact comparison of the decoded HA state with \"active\" / \"active-primary\"", exact,
+				"a member that is not the active one (passive, active-secondary, suspended, ...) can be accepted and changed: "+why)
 			continue
 		}
 		if !vals[0] {
